@@ -4,7 +4,14 @@
 // One case per line:
 //   c01 <vols> <reqs>
 //   vols := vol ('/' vol)*                 1..3 Directory volumes, in mount order
-//   vol  := flags ':' repl ':' files       flags: w|r (writable/read-only) + optional f (full marker)
+//   vol  := flags ':' repl ':' files [':' faults]   flags: w|r (writable/read-only) + optional f (full marker)
+//   faults := fault (',' fault)*           I/O faults of block paths, produced with file-system means that bind root too:
+//   fault := 'i' hash   the planted file is immutable (FS_IMMUTABLE_FL): readable, but Touch (open O_RDWR) and
+//                       renaming the temp file over it fail with EPERM
+//          | 'd' hash   a directory sits at the block path: reading gives EISDIR, rename onto it fails
+//          | 'n' hash   a regular file sits where the block directory <root>/<hash[0:3]> should be: stat gives
+//                       ENOTDIR (= not found), MkdirAll fails
+//          | 'l' hash   the block directory is immutable: TempFile fails, existing files are read/touched as usual
 //   files:= '-' | file (',' file)*         file := <hash32> '=' content
 //   content := 'x' hex*                    literal bytes
 //            | 's' md5 '.' len '.' gen     symbolic: gen := 'R' seed 'n' len ('~f' bitpos | '~t' len | '~a' hex | '~z' total)*
@@ -51,8 +58,10 @@ import (
 	"sort"
 	"strconv"
 	"strings"
+	"syscall"
 	"testing"
 	"time"
+	"unsafe"
 
 	"git.arvados.org/arvados.git/sdk/go/arvados"
 	"git.arvados.org/arvados.git/sdk/go/ctxlog"
@@ -65,7 +74,42 @@ type verifC01Vol struct {
 	full  bool
 	repl  int
 	files [][2]string // hash, content spec
+	faults [][2]string // kind, hash
 	root  string
+}
+
+// verifC01SetImmutable sets or clears FS_IMMUTABLE_FL (what `chattr +i` does).
+func verifC01SetImmutable(path string, on bool) error {
+	f, err := os.Open(path)
+	if err != nil {
+		return err
+	}
+	defer f.Close()
+	var flags int64
+	if _, _, e := syscall.Syscall(syscall.SYS_IOCTL, f.Fd(), 0x80086601, uintptr(unsafe.Pointer(&flags))); e != 0 {
+		return e
+	}
+	if on {
+		flags |= 0x10
+	} else if flags&0x10 == 0 {
+		return nil
+	} else {
+		flags &^= 0x10
+	}
+	if _, _, e := syscall.Syscall(syscall.SYS_IOCTL, f.Fd(), 0x40086602, uintptr(unsafe.Pointer(&flags))); e != 0 {
+		return e
+	}
+	return nil
+}
+
+// verifC01ClearImmutable clears the immutable flag of everything below root (so that it can be removed).
+func verifC01ClearImmutable(root string) {
+	filepath.Walk(root, func(path string, fi os.FileInfo, err error) error {
+		if err == nil && (fi.IsDir() || fi.Mode().IsRegular()) {
+			verifC01SetImmutable(path, false)
+		}
+		return nil
+	})
 }
 
 var verifC01Logger = func() *logrus.Logger {
@@ -202,8 +246,8 @@ func verifC01Plant(path, spec string) error {
 func verifC01ParseVols(s string) ([]*verifC01Vol, error) {
 	var vols []*verifC01Vol
 	for _, vs := range strings.Split(s, "/") {
-		p := strings.SplitN(vs, ":", 3)
-		if len(p) != 3 {
+		p := strings.Split(vs, ":")
+		if len(p) != 3 && len(p) != 4 {
 			return nil, fmt.Errorf("bad vol")
 		}
 		v := &verifC01Vol{}
@@ -230,6 +274,48 @@ func verifC01ParseVols(s string) ([]*verifC01Vol, error) {
 					return nil, fmt.Errorf("bad file")
 				}
 				v.files = append(v.files, [2]string{kv[0], kv[1]})
+			}
+		}
+		if len(p) == 4 {
+			planted := map[string]bool{}
+			for _, kv := range v.files {
+				planted[kv[0]] = true
+			}
+			seen := map[string]bool{}
+			for _, fs := range strings.Split(p[3], ",") {
+				if len(fs) != 33 || !strings.ContainsRune("idnl", rune(fs[0])) || seen[fs[1:]] {
+					return nil, fmt.Errorf("bad fault")
+				}
+				for _, c := range fs[1:] {
+					if !strings.ContainsRune("0123456789abcdef", c) {
+						return nil, fmt.Errorf("bad fault")
+					}
+				}
+				seen[fs[1:]] = true
+				v.faults = append(v.faults, [2]string{fs[:1], fs[1:]})
+			}
+			for _, ft := range v.faults {
+				switch ft[0] {
+				case "i":
+					if !planted[ft[1]] {
+						return nil, fmt.Errorf("bad fault")
+					}
+				case "d":
+					if planted[ft[1]] {
+						return nil, fmt.Errorf("bad fault")
+					}
+				case "n":
+					for h := range planted {
+						if h[:3] == ft[1][:3] {
+							return nil, fmt.Errorf("bad fault")
+						}
+					}
+					for _, o := range v.faults {
+						if o[1] != ft[1] && o[1][:3] == ft[1][:3] {
+							return nil, fmt.Errorf("bad fault")
+						}
+					}
+				}
 			}
 		}
 		vols = append(vols, v)
@@ -293,6 +379,11 @@ func verifC01Listing(vols []*verifC01Vol) string {
 			rel, _ := filepath.Rel(v.root, path)
 			if rel == "full" {
 				return nil
+			}
+			for _, ft := range v.faults {
+				if ft[0] == "n" && rel == ft[1][:3] {
+					return nil
+				}
 			}
 			name := strings.Replace(rel, "/", "!", -1)
 			if base := filepath.Base(rel); len(base) == 32 && rel == base[:3]+"/"+base {
@@ -534,6 +625,12 @@ func verifC01Case(line string, tmpParent string) (out string) {
 		return "setup-failed " + err.Error()
 	}
 	defer os.RemoveAll(tmp)
+	for _, v := range vols {
+		if len(v.faults) > 0 {
+			defer verifC01ClearImmutable(tmp)
+			break
+		}
+	}
 	for i, v := range vols {
 		v.root = filepath.Join(tmp, fmt.Sprintf("v%d", i))
 		if err := os.Mkdir(v.root, 0755); err != nil {
@@ -549,6 +646,35 @@ func verifC01Case(line string, tmpParent string) (out string) {
 		if v.full {
 			if err := os.Symlink(fmt.Sprintf("%d", time.Now().Unix()), filepath.Join(v.root, "full")); err != nil {
 				return "setup-failed"
+			}
+		}
+		// I/O faults: first everything that creates something, then the immutable flags
+		for _, ft := range v.faults {
+			dir := filepath.Join(v.root, ft[1][:3])
+			var err error
+			switch ft[0] {
+			case "d":
+				err = os.MkdirAll(filepath.Join(dir, ft[1]), 0755)
+			case "n":
+				err = ioutil.WriteFile(dir, nil, 0644)
+			case "l":
+				err = os.MkdirAll(dir, 0755)
+			}
+			if err != nil {
+				return "setup-failed fault"
+			}
+		}
+		for _, ft := range v.faults {
+			dir := filepath.Join(v.root, ft[1][:3])
+			var err error
+			switch ft[0] {
+			case "i":
+				err = verifC01SetImmutable(filepath.Join(dir, ft[1]), true)
+			case "l":
+				err = verifC01SetImmutable(dir, true)
+			}
+			if err != nil {
+				return "setup-failed immutable-flag-unsupported"
 			}
 		}
 	}
@@ -644,7 +770,7 @@ func verifC01Case(line string, tmpParent string) (out string) {
 			res = fmt.Sprintf("%d,%s,%s", rec.Code, verifC01Hdr(rec.Header().Get("X-Keep-Replicas-Stored")), fg)
 		case p[0] == "X" && len(p) == 5 && len(p[2]) == 32 && (p[4] == "k" || p[4] == "n"):
 			idx, err := strconv.Atoi(p[1])
-			if err != nil || idx < 0 || idx >= len(vols) {
+			if err != nil || idx < 0 || idx >= len(vols) || len(vols[idx].faults) > 0 {
 				return "bad-op"
 			}
 			dir := filepath.Join(vols[idx].root, p[2][:3])
@@ -687,6 +813,16 @@ func TestVerifC01(t *testing.T) {
 	// the device id plays no role in this property, so let the lookup fail fast ("" device id).
 	os.Setenv("PATH", "/nonexistent")
 	bufs = newBufferPool(verifC01Logger, 4, BlockSize)
+	// volumes left behind by a crashed run may contain immutable files; other shards of this run work
+	// in the same directory at the same time, so only what is older than any running case is removed
+	if old, _ := filepath.Glob(filepath.Join(filepath.Dir(outPath), "c01vols*")); len(old) > 0 {
+		for _, d := range old {
+			if fi, err := os.Stat(d); err == nil && time.Since(fi.ModTime()) > 2*time.Hour {
+				verifC01ClearImmutable(d)
+				os.RemoveAll(d)
+			}
+		}
+	}
 	w := bufio.NewWriter(outf)
 	defer w.Flush()
 	sc := bufio.NewScanner(in)
